@@ -184,6 +184,51 @@ class SmallSetInterp {
     }
     std::reverse(rseen.begin(), rseen.end());
     if (!tainted() && rseen != seen) violation(P11, "%s: rbegin()->rend() does not visit the reverse of begin()->end()", what);
+    // iterator protocol on every position: it++ / it-- yield the old position and step by one, --end() reaches the last element,
+    // a backward walk with the postfix form visits every element once
+    if (!m.empty()) {
+      typename S::const_iterator it = c.begin();
+      for (size_t k = 0; k < seen.size() && !tainted(); ++k) {
+        typename S::const_iterator old = it, nxt = it;
+        ++nxt;
+        typename S::const_iterator r = it++;
+        if (!(r == old) || !(it == nxt)) {
+          violation(P11, "%s: it++ at position %zu does not return the old position and advance by one", what, k);
+          break;
+        }
+        typename S::const_iterator back = it;
+        typename S::const_iterator r2 = back--;
+        if (!(r2 == it) || !(back == old)) {
+          violation(P11, "%s: it-- at position %zu does not return the old position and step back by one", what, k + 1);
+          break;
+        }
+        typename S::const_iterator pre = it;
+        if (!(--pre == old) || val_of(*pre) != seen[k]) {
+          violation(P11, "%s: --it at position %zu does not designate the previous element", what, k + 1);
+          break;
+        }
+      }
+      if (!tainted()) {
+        std::vector<int> back;
+        typename S::const_iterator b = c.end();
+        size_t guard = 0;
+        while (!(b == c.begin()) && guard++ <= seen.size()) {
+          b--;
+          back.push_back(val_of(*b));
+        }
+        std::reverse(back.begin(), back.end());
+        if (back != seen) violation(P11, "%s: walking back from end() with it-- does not visit the elements of the forward walk in reverse", what);
+      }
+      if (!tainted()) {
+        typename S::const_reverse_iterator rit = c.rbegin();
+        typename S::const_reverse_iterator rold = rit;
+        typename S::const_reverse_iterator rr = rit++;
+        if (!(rr == rold) || val_of(*rr) != seen[seen.size() - 1]) violation(P11, "%s: reverse iterator rit++ does not return the old position", what);
+        typename S::const_reverse_iterator rr2 = rit--;
+        if (!tainted() && (!(rit == rold) || (seen.size() > 1 && val_of(*rr2) != seen[seen.size() - 2]))) violation(P11, "%s: reverse iterator rit-- does not return the old position and step back", what);
+      }
+    }
+    if (tainted()) return;
     // membership of every key of the domain
     for (int k = 0; k < KEYS && !tainted(); ++k) {
       E key(ET<E>::make(k));
